@@ -115,10 +115,35 @@ int main(int argc, char** argv) {
     t_tid = 0; int helper = vh_arg(argc, argv, "--helper", 0);
     Shared S; int n = 0; VhRng r(seed);
     logev("\"e\":\"ThreadStart\",\"tid\":0");
+    if (vh_arg(argc, argv, "--probe", 0) == 2) {
+        // probe 2: the very first use of the library in this process is K threads creating their first Lagrange polynomial at the same moment (first use
+        // of the process-lifetime processor, SharedInit.tla); each then writes its polynomial and multiplies (its own thread_local processor); after the
+        // join the main thread writes every polynomial (in a child process: the outcome is recorded, identities are judged).
+        const int K = 8; std::atomic<int> ready(0); std::vector<LagrangeHalfCPolynomial*> P(K, (LagrangeHalfCPolynomial*)0); std::vector<std::thread> th;
+        auto polyev = [&](const char* e, int tid, const LagrangeHalfCPolynomial* Q, const char* extra) { long sq = g_seq.fetch_add(1); std::lock_guard<std::mutex> l(g_mu); char tmp[256];
+            snprintf(tmp, sizeof tmp, "\"e\":\"%s\",\"tid\":%d,\"poly\":%d,\"proc\":%d%s", e, tid, idof(Q), idof(Q->precomp), extra); Rec r; r.seq = sq; r.json = tmp; g_log.push_back(r); };
+        for (int i = 0; i < K; i++) th.emplace_back([&, i]() { t_tid = g_next_tid.fetch_add(1) + 1; { char tmp[64]; snprintf(tmp, sizeof tmp, "\"e\":\"ThreadStart\",\"tid\":%d", t_tid); logev(tmp); }
+            ready.fetch_add(1); while (ready.load() < K) { }
+            P[i] = new_LagrangeHalfCPolynomial(1024); polyev("PolyNew", t_tid, P[i], "");
+            LagrangeHalfCPolynomialClear(P[i]); LagrangeHalfCPolynomialAddTorusConstant(P[i], 77 + i); polyev("PolyUse", t_tid, P[i], ",\"outcome\":\"ok\"");
+            Ws w; w.la = new_LagrangeHalfCPolynomial(1024); w.lb = new_LagrangeHalfCPolynomial(1024); w.lr = new_LagrangeHalfCPolynomial(1024);
+            ev_eval("lagrange_product", 0x600dULL, {(uint64_t)7000}, lagr_product(w, 7000), "first");
+            delete_LagrangeHalfCPolynomial(w.la); delete_LagrangeHalfCPolynomial(w.lb); delete_LagrangeHalfCPolynomial(w.lr);
+            flush_use(); { char tmp[96]; snprintf(tmp, sizeof tmp, "\"e\":\"ThreadEnd\",\"tid\":%d,\"decomp\":0", t_tid); logev(tmp); } });
+        for (auto& t : th) t.join();
+        { long sq = g_seq.fetch_add(1); std::lock_guard<std::mutex> l(g_mu); Rec rr; rr.seq = sq; rr.json = "\"e\":\"Joined\",\"upto\":" + std::to_string(g_next_tid.load()); g_log.push_back(rr); }
+        for (int i = 0; i < K; i++) { fflush(stdout); pid_t pid = fork(); if (pid == 0) { signal(SIGSEGV, SIG_DFL); LagrangeHalfCPolynomialClear(P[i]); LagrangeHalfCPolynomialAddTorusConstant(P[i], 12345); _exit(0); }
+            int st = 0; waitpid(pid, &st, 0); polyev("PolyUse", 0, P[i], (WIFEXITED(st) && WEXITSTATUS(st) == 0) ? ",\"outcome\":\"ok\"" : ",\"outcome\":\"signal\""); }
+        { Ws w; w.la = new_LagrangeHalfCPolynomial(1024); w.lb = new_LagrangeHalfCPolynomial(1024); w.lr = new_LagrangeHalfCPolynomial(1024);
+          ev_eval("lagrange_product", 0x600dULL, {(uint64_t)7000}, lagr_product(w, 7000), "main"); flush_use(); }
+        std::sort(g_log.begin(), g_log.end(), [](const Rec& a, const Rec& b) { return a.seq < b.seq; });
+        for (auto& rec : g_log) printf("{\"seq\":%ld,%s}\n", rec.seq, rec.json.c_str());
+        fflush(stdout); return 0;
+    }
     // workspaces used by the workers are allocated by the main thread, which outlives them (a Lagrange polynomial keeps a pointer to the FFT processor of the
     // thread that created it: see the probe below and defect D8, repaired by 0f4e6fe)
     for (int q = 0; q < 64; q++) { Ws w; w.la = new_LagrangeHalfCPolynomial(1024); w.lb = new_LagrangeHalfCPolynomial(1024); w.lr = new_LagrangeHalfCPolynomial(1024); S.ws.push_back(w); }
-    if (vh_arg(argc, argv, "--probe", 0)) {
+    if (vh_arg(argc, argv, "--probe", 0) == 1) {
         // probe: a polynomial created by a thread that has exited, then used by the main thread.  Events only name identities (which processor the polynomial
         // points to, who created it); the use itself runs in a child process and its outcome is recorded but not judged here.
         auto polyev = [&](const char* e, int tid, const LagrangeHalfCPolynomial* P, const char* extra) { long sq = g_seq.fetch_add(1); std::lock_guard<std::mutex> l(g_mu); char tmp[256];
